@@ -78,6 +78,21 @@ fn rich_seq<R: ReadDoc>(doc: &R, obj: &ObjId, ty: ObjType, len: usize, heads: Op
         Ok(c) => pos_json(doc.get_cursor_position(obj, &c, heads)),
         Err(_) => json!(-1),
     };
+    // the iterator reads: list_range(..) and values()
+    let lr: Vec<J> = match heads {
+        Some(h) => doc.list_range_at(obj, .., h),
+        None => doc.list_range(obj, ..),
+    }
+    .map(|it| json!({"i": it.index as i64, "id": enc::exid(&it.id()), "v": enc::value(&automerge::Value::from(it.value.clone())), "c": it.conflict}))
+    .collect();
+    rec["lr"] = J::Array(lr);
+    let vs: Vec<J> = match heads {
+        Some(h) => doc.values_at(obj, h),
+        None => doc.values(obj),
+    }
+    .map(|(v, id)| json!({"id": enc::exid(&id), "v": enc::value(&v)}))
+    .collect();
+    rec["vs"] = J::Array(vs);
     // marks, three ways
     let marks = match heads {
         Some(h) => doc.marks_at(obj, h),
@@ -185,7 +200,24 @@ pub fn view<R: ReadDoc>(doc: &R, heads: Option<&[ChangeHash]>) -> J {
                     let (win, vals) = vals_at(doc, &obj, key.as_str().into(), heads, &mut todo);
                     ents.push(json!({"k": enc::safe_str(&key), "win": win, "vals": vals}));
                 }
-                json!({"id": enc::exid(&obj), "ty": enc::objtype_str(ty), "ents": ents})
+                let mut rec = json!({"id": enc::exid(&obj), "ty": enc::objtype_str(ty), "ents": ents});
+                if RICH.load(Ordering::SeqCst) {
+                    let mr: Vec<J> = match heads {
+                        Some(h) => doc.map_range_at(&obj, .., h),
+                        None => doc.map_range(&obj, ..),
+                    }
+                    .map(|it| json!({"k": enc::safe_str(it.key.as_ref()), "id": enc::exid(&it.id()), "v": enc::value(&automerge::Value::from(it.value.clone())), "c": it.conflict}))
+                    .collect();
+                    rec["mr"] = J::Array(mr);
+                    let vs: Vec<J> = match heads {
+                        Some(h) => doc.values_at(&obj, h),
+                        None => doc.values(&obj),
+                    }
+                    .map(|(v, id)| json!({"id": enc::exid(&id), "v": enc::value(&v)}))
+                    .collect();
+                    rec["vs"] = J::Array(vs);
+                }
+                rec
             }
             ObjType::List => {
                 let len = match heads {
